@@ -1,6 +1,8 @@
+from .. import smt_units
+
 PROP = {
     "kani_groups": ["hk_otlp"],
-    "smt": [],
+    "smt": [smt_units.unit_otlp_http_connection],
     "level_text": "PARTIAL claim: decides the request accounting of the OTLP client (the request loop of "
                   "OtlpTransport::send against scripted per-request outcomes, and the grouping/len/clear accounting of "
                   "the batching Channel). Everything that needs hyper, tokio, TLS, gzip or sockets is outside.",
@@ -12,13 +14,26 @@ PROP = {
         "emit_batcher::BatchError::{retry, map_retryable, into_retryable}",
         "<emit_otlp::client::Channel as emit_batcher::Channel>::{new, push, len, clear}",
         "emit_otlp::data::EncodedScopeItems::{new, push, total_items, items}",
+        "E2-cfg (mir2smt/otlp_http_cfg_ob.py, unit_otlp_http_connection): the async block of emit_otlp::client::http::HttpConnection::send "
+        "(pre-coroutine MIR, `-Zdump-mir` StateTransform.before; calls uninterpreted, await points = Future::poll + a free "
+        "'resumed / future dropped while suspended' choice) and, structurally, HttpConnection::{poison, unpoison} and every user of the "
+        "`sender` slot on the crate's ordinary MIR. Obligations: p1 unpoison only after `?` on the result of polling send_request(..) "
+        "returned Ok; p2 poison is the first call, connect is executed iff poison returned None, send_request after None only through "
+        "connect's Ok, the sender sent on / put back is the taken or the connected one and is handed to nothing else; p3 at most one "
+        "unpoison per path, none on a path cancelled at an earlier await point or returning an earlier Err. A counter-path is concretised "
+        "natively (ONE real HttpConnection, HTTP/1, against a scripted std::net collector that acknowledges one request, closes the "
+        "connection and serves later connections) with the property's oracle 'the request after a failed one goes out on a fresh "
+        "connection and is acknowledged'; only a natively failing oracle is a VIOLATION, else the candidate is inconclusive (exit 2)",
     ],
-    "bounds": "send loop: batches of exactly 1 and 2 requests (thorough: 3 and 4), every sequence of per-request outcomes "
+    "bounds": "E2-cfg connection replacement: every abstract path of the async block with at most 2 Pending results per await point "
+              "(connect, send_request, response), results of connect / send_request / callbacks / gzip free, emit_otlp built with its "
+              "default features (tls, gzip); send loop: batches of exactly 1 and 2 requests (thorough: 3 and 4), every sequence of per-request outcomes "
               "{acknowledged, retryable failure}; retry of the remainder for 2 requests and every failure position (thorough). "
               "Channel: exactly 2 items, payload sizes 0..=3 and one request size limit 0..=4 symbolic, one scope; "
               "clear after 1 item followed by one more push",
     "outside": "the network request itself (hyper client, tokio net/time, TLS, gzip, gRPC framing, status interpretation, "
-               "connection poisoning/replacement, timeouts), non-retryable encode failures, the retry/back-off schedule of "
+               "what hyper reports for a broken connection, timeouts beyond 'the future is dropped at an await point'; connection "
+               "poisoning/replacement is decided only as the control-flow obligation above), non-retryable encode failures, the retry/back-off schedule of "
                "emit_batcher, per-signal independence on the worker runtime, flush end-to-end; Channel: 3 or more items "
                "(out of memory at 12 GB in CBMC's propositional reduction after 77 s), clear after 2 or more items (same), "
                "payload identity/order inside a request (reading payloads back: 302 s for two items, out of memory for the "
@@ -34,6 +49,9 @@ PROP = {
         "Pending fails the harness)",
     ],
     "assumptions": [
+        "E2-cfg: std/tokio/hyper calls are uninterpreted (any result); the variant-transparent std combinators of mir2smt/cfgabs.py "
+        "(Try::branch, FromResidual::from_residual, Result::map_err ...) behave as documented; a panicking callee ends the path; "
+        "std::sync::Mutex provides mutual exclusion for the `sender` slot (poison/unpoison are one lock each)",
         "send loop: requests carry no items and are told apart by their slot (address) in the batch's request vector",
         "transport failures are retryable (BatchError::retry), as every failure produced by send_batch's network path is",
         "channel: a request keeps its items in push order (Vec::push); items are told apart by position only",
